@@ -31,10 +31,14 @@ class Ctx:
         self.seed = int(os.environ.get('VERIF_SEED', '0') or 0)
 
     # ---- facts
-    def facts(self, cfgs, kinds=('lib', 'probe'), only=None):
-        key = (tuple(cfgs), tuple(kinds), only)
+    def facts(self, cfgs, kinds=('lib', 'probe'), only=None, tests=None):
+        """`tests`: regex selecting units of the repository's own test suite; they are added (parsed only) in the
+        thorough tier, so that every rule also sees the template instantiations the real build produces."""
+        if self.tier != 'thorough' or os.environ.get('VERIF_NO_TESTS'):
+            tests = None
+        key = (tuple(cfgs), tuple(kinds), only, tests)
         if key not in self._fb_cache:
-            fbs = facts.load(cfgs, kinds, only, self.root)
+            fbs = facts.load(cfgs, kinds, only, self.root, tests=tests)
             for c, fb in fbs.items():
                 for u in fb.units:
                     self.units.append('%s[%s]: %d functions' % (u[0], u[1], u[2]))
